@@ -37,6 +37,7 @@ pub struct IoStats {
     pub short_writes: u64,
     pub write_eintr: u64,
     pub enospc: u64,
+    pub scribbles: u64,
     pub full_zero: u64,
     pub flush_errors: u64,
     pub recorder_steps: u64,
@@ -398,6 +399,12 @@ impl<'a> Read for SimStream<'a> {
             self.high_water = self.position();
         }
         if n < buf.len() {
+            if self.spec.scribble {
+                for b in buf[n..].iter_mut().take(4096) {
+                    *b = 0xA5;
+                }
+                self.stats.scribbles += 1;
+            }
             self.stats.short_reads += 1;
             if seg == 1 && self.position() < self.data.len() {
                 self.note_split();
@@ -431,6 +438,98 @@ impl<'a> Seek for SimStream<'a> {
         self.consecutive_eof = 0;
         self.log(1, 0, self.pos as i64);
         Ok(self.pos as u64)
+    }
+}
+
+/// A replay too large to hold in memory: `head ++ hole ++ tail`, where the hole is `count` events of
+/// an undeclared-to-the-library code, each `[code][65535 zero bytes]`, generated on the fly. Lets a
+/// run cross the 2^31 / near-2^32 byte marks that the 32-bit raw length allows.
+pub struct SparseStream<'a> {
+    head: &'a [u8],
+    tail: &'a [u8],
+    hole_len: u64,
+    code: u8,
+    pos: u64,
+    /// largest number of bytes one read returns (0 = whatever was asked)
+    chunk: usize,
+    consecutive_eof: u32,
+    pub reads: u64,
+    pub seeks: u64,
+    pub max_pos: u64,
+}
+
+impl<'a> SparseStream<'a> {
+    pub fn new(head: &'a [u8], tail: &'a [u8], count: u64, code: u8, chunk: usize) -> Self {
+        SparseStream { head, tail, hole_len: count * 65536, code, pos: 0, chunk, consecutive_eof: 0, reads: 0, seeks: 0, max_pos: 0 }
+    }
+    pub fn total(&self) -> u64 {
+        self.head.len() as u64 + self.hole_len + self.tail.len() as u64
+    }
+}
+
+impl<'a> Read for SparseStream<'a> {
+    fn read(&mut self, buf: &mut [u8]) -> io::Result<usize> {
+        progress();
+        self.reads += 1;
+        if buf.is_empty() {
+            return Ok(0);
+        }
+        let total = self.total();
+        if self.pos >= total {
+            self.consecutive_eof += 1;
+            if self.consecutive_eof > EOF_POLL_LIMIT {
+                std::panic::resume_unwind(Box::new(NoProgress(format!("{} consecutive reads at end of a sparse stream (pos {})", self.consecutive_eof, self.pos))));
+            }
+            return Ok(0);
+        }
+        self.consecutive_eof = 0;
+        let h = self.head.len() as u64;
+        let mut n = buf.len();
+        if self.chunk > 0 {
+            n = n.min(self.chunk);
+        }
+        if self.pos < h {
+            let off = self.pos as usize;
+            n = n.min(self.head.len() - off);
+            buf[..n].copy_from_slice(&self.head[off..off + n]);
+        } else if self.pos < h + self.hole_len {
+            let k = self.pos - h;
+            n = (n as u64).min(self.hole_len - k) as usize;
+            for b in buf[..n].iter_mut() {
+                *b = 0;
+            }
+            // command bytes sit at multiples of 65536 inside the hole
+            let mut next = (65536 - (k % 65536)) % 65536;
+            while (next as usize) < n {
+                buf[next as usize] = self.code;
+                next += 65536;
+            }
+        } else {
+            let off = (self.pos - h - self.hole_len) as usize;
+            n = n.min(self.tail.len() - off);
+            buf[..n].copy_from_slice(&self.tail[off..off + n]);
+        }
+        self.pos += n as u64;
+        self.max_pos = self.max_pos.max(self.pos);
+        Ok(n)
+    }
+}
+
+impl<'a> Seek for SparseStream<'a> {
+    fn seek(&mut self, pos: SeekFrom) -> io::Result<u64> {
+        progress();
+        self.seeks += 1;
+        let new = match pos {
+            SeekFrom::Start(o) => o as i128,
+            SeekFrom::Current(d) => self.pos as i128 + d as i128,
+            SeekFrom::End(d) => self.total() as i128 + d as i128,
+        };
+        if new < 0 || new > u64::MAX as i128 {
+            return Err(io::Error::new(io::ErrorKind::InvalidInput, "sim: seek out of range"));
+        }
+        self.pos = new as u64;
+        self.consecutive_eof = 0;
+        Ok(self.pos)
     }
 }
 
